@@ -15,14 +15,15 @@ TECHNIQUE = "static analysis: finite-domain evaluation of writer/reader digit ex
 LEVEL = "other"
 EXPLANATION = (
     "Writer/reader agreement decided from the code's own digit expressions by finite-domain evaluation over all 36 "
-    "digit values and a probe set of characters: the digit function of to_string_base (arithmetic or table idiom) is "
-    "the conventional 0-9A-Z, the digit function of from_string_base inverts it on every digit and rejects "
-    "everything else, both accept exactly bases 1..=36; structural rules: the writer emits digit = n % base then n /= "
-    "base, appends '-' after the digits and reverses once, prints \"0\" for zero; the reader accepts '-' only at index "
-    "0, accumulates res = res*base + digit in that order and applies the sign at the end; Num's Display and "
-    "from_string agree on the NaN text, the '/' separator and the leading '-' for every shape (integer and fraction); "
-    "the level-2 stack restore embeds Display text (String) with Debug quoting. The repeated-division loop and the "
-    "Horner accumulation as arithmetic are NOT decided."
+    'digit values and a probe set of characters: the digit function of to_string_base (arithmetic or table idiom) is '
+    'the conventional 0-9A-Z, the digit function of from_string_base inverts it on every digit and rejects everything '
+    'else, both accept exactly bases 1..=36; structural rules: the writer emits digit = n % base then n /= base, '
+    'appends \'-\' after the digits and reverses once, prints "0" for zero; the reader accepts \'-\' only at index 0, '
+    'accumulates res = res*base + digit in that order and applies the sign at the end; Num::from_string is abstractly '
+    "interpreted over the shape domain of Display's image (NaN text, D, -D, D/D, -D/D with opaque digit blocks) and "
+    'must return NaN / the number with that sign, numerator and denominator for every shape; the level-2 stack '
+    'restore embeds Display text (String) with Debug quoting, every element of the stack, in order, with no selecting '
+    'adapter. The repeated-division loop and the Horner accumulation as arithmetic are NOT decided.'
 )
 ASSUMPTIONS = ["rustc MIR (nightly 1.97, mir-opt-level=0)", "BigNum arithmetic is exact (C05)", "String/char std operations behave as documented"]
 TRUSTED = ["rustc nightly MIR", "/verif/rules A-PATH/A-ORG + finite-domain evaluator (rules/evalo.py)"]
